@@ -249,12 +249,27 @@ pub fn run(tier: Tier, seed: u64) -> i32 {
                 Ok((blake_hex(&proof.to_bytes()), ok && !bad_ok, keys))
             };
             let total = n_threads * jobs_per;
-            let seq: Vec<_> = (0..total).map(|j| job(j, &prover, &verifier)).collect();
+            // The concurrent phase comes FIRST and runs on keys that have never
+            // been used (freshly decoded from bytes), with all threads released
+            // together, so that lazily initialised state inside the keys is
+            // first touched concurrently. The sequential reference is taken
+            // afterwards on another fresh decode.
+            let pbytes = prover.to_bytes();
+            let vbytes = verifier.to_bytes();
+            let fresh = || -> Option<(Arc<Prover>, Arc<Verifier>)> {
+                Some((Arc::new(Prover::try_from_bytes(&pbytes).ok()?), Arc::new(Verifier::try_from_bytes(&vbytes).ok()?)))
+            };
+            let Some((cprover, cverifier)) = fresh() else {
+                ev.violation("C18:D4-shared-keys:own-bytes-rejected", json!({"rows": rows}));
+                continue;
+            };
             let conc: Vec<std::sync::Mutex<Option<Result<(String, bool, String), String>>>> = (0..total).map(|_| std::sync::Mutex::new(None)).collect();
+            let barrier = std::sync::Barrier::new(n_threads as usize);
             std::thread::scope(|s| {
                 for t in 0..n_threads {
-                    let (prover, verifier, conc, job) = (&prover, &verifier, &conc, &job);
+                    let (prover, verifier, conc, job, barrier) = (&cprover, &cverifier, &conc, &job, &barrier);
                     s.spawn(move || {
+                        barrier.wait();
                         for k in 0..jobs_per {
                             let j = t * jobs_per + k;
                             *conc[j as usize].lock().unwrap() = Some(job(j, prover, verifier));
@@ -262,6 +277,8 @@ pub fn run(tier: Tier, seed: u64) -> i32 {
                     });
                 }
             });
+            let Some((sprover, sverifier)) = fresh() else { continue };
+            let seq: Vec<_> = (0..total).map(|j| job(j, &sprover, &sverifier)).collect();
             for j in 0..total {
                 let c = conc[j as usize].lock().unwrap().take().unwrap();
                 let desc = json!({"rows": rows, "scenario": "D4-shared-keys", "job": j});
